@@ -2060,9 +2060,22 @@ class AxisInterp:
             return '%s#%s' % (node.id, v.c if v is not None else 0)
         return None
 
+    @staticmethod
+    def _pos_args(e, meth):
+        """Arguments of a Table method call in parameter order, whether
+        they are written positionally or by keyword (contiguous prefix)."""
+        from .normalize import TABLE_SIGNATURES
+        sig = TABLE_SIGNATURES.get(meth)
+        args = list(e.args)
+        if sig and not any(isinstance(a, ast.Starred) for a in args):
+            kw = {k.arg: k.value for k in e.keywords if k.arg}
+            while len(args) < len(sig) and sig[len(args)] in kw:
+                args.append(kw[sig[len(args)]])
+        return args
+
     def table_method(self, e, recv, meth, env):
         own = self.named_owner(recv, e.func.value, env)
-        args = e.args
+        args = self._pos_args(e, meth)
         if own and own.endswith("'") and (
                 meth in ('add_metadata', 'del_metadata', '_cast_metadata',
                          '_index_ids') or (
